@@ -10,14 +10,14 @@ use crate::scpi1999::EventRegister;
 use scpi::tree::prelude::*;
 
 #[kani::proof_for_contract(crate::scpi1999::EventRegister::set_condition)]
-#[kani::unwind(8)]
+#[kani::unwind(18)]
 pub fn set_condition_contract() {
     let mut r = any_reg();
     r.set_condition(kani::any());
 }
 
 #[kani::proof]
-#[kani::unwind(8)]
+#[kani::unwind(18)]
 pub fn set_condition_post() {
     let r0 = any_reg();
     let mut r = r0;
@@ -30,7 +30,7 @@ pub fn set_condition_post() {
 }
 
 #[kani::proof]
-#[kani::unwind(8)]
+#[kani::unwind(18)]
 pub fn set_clear_condition_bits() {
     let r0 = any_reg();
     let m: u16 = kani::any();
@@ -48,7 +48,7 @@ pub fn set_clear_condition_bits() {
 }
 
 #[kani::proof]
-#[kani::unwind(8)]
+#[kani::unwind(18)]
 pub fn preset_clear_summary() {
     let r0 = any_reg();
     let mut r = r0;
@@ -67,7 +67,7 @@ pub fn preset_clear_summary() {
 
 /// History step: two successive updates latch the union, a read in between clears (ghost L_b).
 #[kani::proof]
-#[kani::unwind(8)]
+#[kani::unwind(18)]
 pub fn history_two_steps() {
     let r0 = any_reg();
     let mut r = r0;
@@ -105,7 +105,7 @@ fn expect_dec(out: &[u8], v: u16) -> bool {
 macro_rules! register_set_harness {
     ($name:ident, $marker:ty, $field:ident, $other:ident) => {
         #[kani::proof]
-        #[kani::unwind(8)]
+        #[kani::unwind(18)]
         pub fn $name() {
             let d0 = any_dev_with(KQueue { items: [scpi::error::Error::default(); QCAP], len: 0 });
             // EVENt?: returns and clears
